@@ -16,8 +16,17 @@ def run(tier, prop=PROP, mode=MODE):
     wd = vp.workdir(prop.lower())
     thorough = tier == "thorough"
     if thorough:
-        t_vm = cc.trees(chk, wd, "vm", 4, 2, 6, False, True)
-        t_nat = cc.trees(chk, wd, "native", 4, 2, 6, True, False)
+        # deeper trees without catching callbacks, plus the quick tier's bounds with them (the
+        # catch option multiplies the number of trees: both together do not fit in memory)
+        nocatch = ("arg", "cbthrow", "cbret", "gthrow")
+        t_vm = cc.trees(chk, wd, "vm", 4, 2, 6, False, True, aborts=nocatch)
+        t_nat = cc.trees(chk, wd, "native", 4, 2, 6, True, False, aborts=nocatch)
+        c_vm = cc.trees(chk, wd, "vm_catch", 3, 2, 5, False, True)
+        c_nat = cc.trees(chk, wd, "native_catch", 3, 2, 5, True, False)
+        if None in (t_vm, t_nat, c_vm, c_nat):
+            return chk.finish()
+        t_vm = t_vm + [h for h in c_vm if any(a.get("catch") for a in h)]
+        t_nat = t_nat + [h for h in c_nat if any(a.get("catch") for a in h)]
     else:
         t_vm = cc.trees(chk, wd, "vm", 3, 2, 5, False, True)
         t_nat = cc.trees(chk, wd, "native", 3, 2, 5, True, False)
